@@ -87,10 +87,10 @@ func extractPause() {
 		strings.Contains(un, "close(chans.PauseCh)close(chans.ResumeCh)") &&
 		strings.Index(un, "manager.subscribers.Delete(chans)") < strings.Index(un, "close(chans.PauseCh)"))
 	p := ""
-	if pf := fn(file, "Pause"); pf != nil {
+	if pf := canonFn(file, "Pause"); pf != nil {
 		p = strings.ReplaceAll(src(pf.Body), " ", "")
 	}
-	s.boolean("pauseCasFalseTrueFirst", strings.HasPrefix(p, "{swap:=manager.isPaused.CompareAndSwap(false,true)if!swap{return}"))
+	s.boolean("pauseCasFalseTrueFirst", strings.HasPrefix(p, "{if!manager.isPaused.CompareAndSwap(false,true){return}"))
 	s.boolean("pauseSendNonBlocking", strings.Contains(p, "select{casechans.PauseCh<-struct{}{}:default:}"))
 	rf := fn(file, "Resume")
 	r := strings.ReplaceAll(src(rf), " ", "")
@@ -103,7 +103,8 @@ func extractPause() {
 	s.boolean("resumeChecksFlagFirst", flag)
 	s.boolean("resumeCollectsThenClears", strings.Contains(r, "wg.Wait()") && strings.Contains(r, "manager.isPaused.CompareAndSwap(true,false)") &&
 		strings.Index(r, "wg.Wait()") < strings.Index(r, "manager.isPaused.CompareAndSwap(true,false)"))
-	s.boolean("resumeHandlesClosed", strings.Contains(r, "_,ok:=<-chans.ResumeCh"))
+	// a receive returns at once on a closed channel whatever its form (`<-ch`, `_, ok := <-ch`)
+	s.boolean("resumeHandlesClosed", strings.Contains(r, "<-chans.ResumeCh") && !strings.Contains(r, "chans.ResumeCh<-"))
 
 	for _, w := range []struct{ name, file, recv string }{
 		{"preprocessor", "internal/pkg/preprocessor/preprocessor.go", "preprocessor.worker"},
